@@ -163,6 +163,9 @@ def C14(ctx):
     rej = pathcheck.validate(ctx, runs)
     for meta, info in rej:
         ctx.violation("path-rejected", progs[meta["prog"]], info, {"note": "first hook event ExploreTrace could not match"})
+    import enginecheck
+    enginecheck.run_engine(ctx, ["ExploreMC_small.cfg", "ExploreMC_hash_b99.cfg"] +
+                           (["ExploreMC_hash_b1.cfg", "ExploreMC_small_b1.cfg"] if ctx.tier == "thorough" else []))
     ctx.cov["programs"] += len(progs)
     ctx.cov["evaluations"] += sum(len(r["hook_events"]) for r in res)
     ctx.cov["distinct_nontrivial"] += nontriv
@@ -170,4 +173,105 @@ def C14(ctx):
         ctx.cov["samples"].append({"program": dsl.pretty(progs[0]), "first_path": pathcheck.canon_path(res[0]["hook_events"][1][2]) if len(res[0]["hook_events"]) > 1 else None})
 
 
-CHECKS = {"C14": C14, "C10": C10, "C11": C11, "C01": C01, "C04": C04, "C05": C05, "C07": C07, "C08": C08, "C09": C09, "C02": C02, "C03": C03}
+def C13(ctx):
+    import pathcheck, enginecheck, random
+    ctx.assumptions += ["resume oracle = Explore.tla: with checkpoint_interval c and max_permutations m the loop stops before "
+                        "iteration s = FirstStop(m, c) having stored the path of iteration s; the resumed run must replay "
+                        "iterations s..N of the uninterrupted run exactly (paths and outcomes), ExploreTrace validates both runs",
+                        "each run_items call is a fresh driver process"]
+    rng = random.Random(ctx.seed * 2477 + 37)
+    pool = [p for p in path_programs(ctx, 200)]
+    # uninterrupted reference runs (twice: determinism)
+    cfgU = {"want_paths": True, "want_seq": True, "iter_cap": 2500}
+    U1 = core.run_loom(ctx, pool, cfg_of=lambda p: cfgU, tag="u1")
+    base = [(p, r) for p, r in zip(pool, U1) if r["end"] == "ok" and 3 <= r["iters"] <= 2000]
+    base = base[: (14 if ctx.tier == "quick" else 60)]
+    progs = [p for p, _ in base]
+    U1 = [r for _, r in base]
+    U2 = core.run_loom(ctx, progs, cfg_of=lambda p: cfgU, tag="u2")
+    for p, a, b in zip(progs, U1, U2):
+        if a["hook_events"] != b["hook_events"] or a["seq"] != b["seq"] or a["seq_keys"] != b["seq_keys"]:
+            ctx.violation("nondeterministic", p, {"iters": [a["iters"], b["iters"]]}, {})
+    # stop / resume
+    ck = os.path.join(ctx.work, "ckpt")
+    os.makedirs(ck, exist_ok=True)
+    jobsA, meta = [], []
+    for pi, (p, u) in enumerate(zip(progs, U1)):
+        N = u["iters"]
+        ks = list(range(1, N + 2)) if N <= 12 else sorted(set([1, 2, 3, N - 1, N, N + 1] + [rng.randint(1, N) for _ in range(8 if ctx.tier == "quick" else 30)]))
+        for k in ks:
+            for c in ([1, 3] if ctx.tier == "quick" else [1, 2, 3, 7]):
+                f = os.path.join(ck, f"p{pi}_k{k}_c{c}.json")
+                if os.path.exists(f):
+                    os.remove(f)
+                jobsA.append({"prog": p, "cfg": {"want_paths": True, "want_seq": True, "checkpoint_file": f,
+                                                  "checkpoint_interval": c, "max_permutations": k}})
+                meta.append((pi, k, c, f))
+    import loomrun
+    RA = loomrun.run_items(os.path.join(ctx.work, "runA"), jobsA, jobs=ctx.jobs, tag="runA")
+    jobsB = [{"prog": j["prog"], "cfg": {"want_paths": True, "want_seq": True, "checkpoint_file": m[3],
+                                         "checkpoint_interval": 100000}} for j, m in zip(jobsA, meta)]
+    RB = loomrun.run_items(os.path.join(ctx.work, "runB"), jobsB, jobs=ctx.jobs, tag="runB")
+    runs = []
+    pairs = 0
+    for (pi, k, c, f), ra, rb in zip(meta, RA, RB):
+        p, u = progs[pi], U1[pi]
+        N = u["iters"]
+        s_ = min(i for i in range(1, k + c + 1) if i % c == 0 and i >= k)       # FirstStop(k, c), cross-checked by TLC (Limits)
+        expA = min(N, s_ - 1)
+        useq = [u["seq_keys"][i] for i in u["seq"]]
+        aseq = [ra["seq_keys"][i] for i in ra["seq"]]
+        bseq = [rb["seq_keys"][i] for i in rb["seq"]]
+        uend = [pth for (ph, it, pth) in u["hook_events"] if ph == "end"]
+        bend = [pth for (ph, it, pth) in rb["hook_events"] if ph == "end"]
+        pairs += 1
+        if ra["end"] != "ok" or rb["end"] != "ok":
+            ctx.violation("resume-failed", p, {"k": k, "c": c, "endA": ra["end"], "endB": rb["end"]}, {"msgA": ra["msg"], "msgB": rb["msg"]})
+            continue
+        if ra["iters"] != expA or aseq != useq[:expA]:
+            ctx.violation("stop-point", p, {"k": k, "c": c, "ran": ra["iters"], "expected": expA}, {})
+        if expA >= N:
+            # the exploration was exhausted before the stop: nothing to resume (B re-runs whatever the file holds)
+            continue
+        if bseq != useq[s_ - 1:] or bend != uend[s_ - 1:]:
+            ctx.violation("resume-diverges", p, {"k": k, "c": c, "stored_iteration": s_, "resumed_iters": rb["iters"],
+                                                 "expected_iters": N - s_ + 1}, {})
+        runs.append(({"prog": pi, "k": k, "c": c, "run": "A"}, ra["hook_events"]))
+        runs.append(({"prog": pi, "k": k, "c": c, "run": "B"}, rb["hook_events"]))
+    ctx.cov["stop_resume_pairs"] = pairs
+    # failing iteration: the checkpoint written (interval 1) before the failing iteration reproduces it first
+    fails = [dsl.normalize(q) for q in [
+        families.P("fail-race", [dsl.spawn(2), dsl.ld("x"), dsl.wr("c"), dsl.join(2)], [dsl.st("x", 1), dsl.rd("c")]),
+        families.P("fail-assert", families.SJ(2) + families.JJ(2), [dsl.st("x", 1), dsl.st("y", 1)],
+                   [dsl.ld("y"), dsl.ld("x"), dsl.br(2, 1, 2), dsl.br(1, 0, 1), dsl.I("panic")]),
+        families.P("fail-deadlock", families.SJ(2) + families.JJ(2), families.CS("m", dsl.ld("x"), *families.CS("n")),
+                   families.CS("n", dsl.ld("x"), *families.CS("m"))),
+    ]]
+    fa = []
+    for i, q in enumerate(fails):
+        f = os.path.join(ck, f"fail{i}.json")
+        if os.path.exists(f):
+            os.remove(f)
+        fa.append({"prog": q, "cfg": {"checkpoint_file": f, "checkpoint_interval": 1, "want_seq": True}})
+    FA = loomrun.run_items(os.path.join(ctx.work, "failA"), fa, jobs=ctx.jobs, tag="failA")
+    FB = loomrun.run_items(os.path.join(ctx.work, "failB"), fa, jobs=ctx.jobs, tag="failB")
+    for q, a, b in zip(fails, FA, FB):
+        if a["end"] == "ok":
+            ctx.notes.append(f"failing-iteration program {q.get('name')} did not fail")
+            continue
+        if b["end"] != a["end"] or b["msg"] != a["msg"] or b["iters"] != 0 or b["fail_trace"] != a["fail_trace"]:
+            ctx.violation("failure-not-reproduced", q, {"endA": a["end"], "itersA": a["iters"], "endB": b["end"], "itersB": b["iters"]},
+                          {"msgA": a["msg"], "msgB": b["msg"]})
+        ctx.cov["failing_checkpoints_reproduced"] = ctx.cov.get("failing_checkpoints_reproduced", 0) + 1
+    rej = pathcheck.validate(ctx, runs)
+    for meta_, info in rej:
+        ctx.violation("path-rejected", progs[meta_["prog"]], {"k": meta_["k"], "c": meta_["c"], "run": meta_["run"], **info}, {})
+    enginecheck.run_engine(ctx, ["ExploreMC_hash_b99.cfg", "ExploreMC_hash_b1.cfg"])
+    ctx.cov["programs"] += len(progs)
+    ctx.cov["evaluations"] += pairs
+    ctx.cov["distinct_nontrivial"] += pairs
+    if progs:
+        ctx.cov["samples"].append({"program": dsl.pretty(progs[0]), "iterations": U1[0]["iters"], "stop_points": sorted({m[1] for m in meta if m[0] == 0})})
+
+
+CHECKS = {"C13": C13, "C14": C14, "C10": C10, "C11": C11, "C01": C01, "C04": C04, "C05": C05, "C07": C07, "C08": C08, "C09": C09, "C02": C02, "C03": C03}
